@@ -27,7 +27,7 @@ CONSTANTS W                 \* number of workers
 Workers == 1..W
 
 VARIABLES
-  scn,        \* the scenario: [tree0, series, cfg, failAt, assign]  (constant after Init)
+  scn,        \* the scenario: [tree0, series, cfg, failAt, assign, seq]  (constant after Init)
   files,      \* disk: path -> [ex, cells, mode, ino]
   dirs,       \* disk: set of existing directories (of the universe: "d")
   rej,        \* disk: set of reject files [path, parts : Seq(set of failed hunk indexes), one per file patch]
@@ -274,7 +274,7 @@ DoBackup == scn.cfg.backup = "always" \/ (scn.cfg.backup = "onfail" /\ final # N
 DownTo == IF scn.cfg.win < 0 THEN 1 ELSE (IF final - 1 > scn.cfg.win THEN final - scn.cfg.win ELSE 1)     \* 1-based
 
 BackupStep(w) ==
-  /\ wpc[w] = "backup"
+  /\ wpc[w] = "backup" /\ (scn.seq => mainpc = "record")
   /\ IF ~DoBackup \/ stack[w] = <<>> THEN wpc' = [wpc EXCEPT ![w] = "done"] /\ UNCHANGED <<mem, stack, bak, err>> /\ NoOp
      ELSE IF stack[w][Len(stack[w])].idx < DownTo THEN wpc' = [wpc EXCEPT ![w] = "done"] /\ UNCHANGED <<mem, stack, bak, err>> /\ NoOp
      ELSE LET st == stack[w][Len(stack[w])]
@@ -296,8 +296,12 @@ AnyErr == \E w \in Workers : err[w]
 DirEmpty(d) == /\ \A p \in Paths : ParentDir(p) = d => ~files[p].ex
                /\ \A r \in rej : ParentDir(r.path) # d
 
+\* The sequential driver (scn.seq) is one thread: it saves everything, cleans, writes rejects and only then
+\* writes the backups; in the parallel driver the main thread waits for the workers (save + backups).
+WorkersSaved == \A w \in Workers : wpc[w] \in {"backup", "done"}
+WorkersDone  == \A w \in Workers : wpc[w] = "done"
 Join ==
-  /\ mainpc = "workers" /\ \A w \in Workers : wpc[w] = "done"
+  /\ mainpc = "workers" /\ (IF scn.seq THEN WorkersSaved ELSE WorkersDone)
   /\ mainpc' = IF AnyErr THEN "exit" ELSE IF scn.cfg.dry THEN "record" ELSE "clean"
   /\ exit' = IF AnyErr THEN "error" ELSE exit
   /\ NoOp
@@ -332,9 +336,10 @@ RejStep ==
   /\ UNCHANGED <<scn, files, dirs, bak, applied, nextIno, written, queue, mem, stack, wpc, cur, err, earliest, final, cleanq>>
 
 Finish ==
-  /\ mainpc = "record"
+  /\ mainpc = "record" /\ WorkersDone
   /\ mainpc' = "exit"
-  /\ IF scn.cfg.dry THEN /\ exit' = (IF final = NSeries + 1 THEN "ok" ELSE "failed") /\ UNCHANGED applied /\ NoOp
+  /\ IF AnyErr THEN exit' = "error" /\ UNCHANGED applied /\ NoOp
+     ELSE IF scn.cfg.dry THEN /\ exit' = (IF final = NSeries + 1 THEN "ok" ELSE "failed") /\ UNCHANGED applied /\ NoOp
      ELSE /\ Count
           /\ IF Fails THEN exit' = "error" /\ UNCHANGED applied
              ELSE /\ applied' = final - 1
